@@ -205,6 +205,7 @@ const (
 	OpApply        // c.Apply(&struct{... `inject`}) in request scope
 	OpSeeNamer     // resolve the Namer interface (implemented only by the application service) and note it
 	OpHTTPError    // answer with http.Error through the handed-out writer
+	OpSetCT        // set a Content-Type before anything is written
 	OpSetCL        // announce a Content-Length the handler may never honour
 	OpExpireCtx    // install a derived context whose deadline has already passed (context.DeadlineExceeded, no timer)
 	OpMapOwnWriter // map an independent flamego.ResponseWriter (a buffering substitute) as the http.ResponseWriter service
@@ -272,6 +273,8 @@ type Req struct {
 	PlannedCancel int   // CancelAt as generated (Local.CancelAt is consumed during the run)
 	Tag           string
 	Body          string // request body (empty: none)
+	Host          string // Host of the request (empty: \"sim\")
+	StartStamp    int64  // global event stamp when the request started being served
 	Chain         int    // chain the request is meant to run (route index, -1 not-found), -99 unknown
 
 	// Recorded.
